@@ -2,7 +2,7 @@
 # tools/run_all.sh [tier] [ids...]: run the checks one after the other; one summary line each.
 tier=${1:-quick}; shift
 ids=${*:-C01 C02 C03 C04 C05 C06 C07 C08 C09 C10 C11 C12 C13 C14 C15 C16 C17 C18 C19 C20}
-cd "$(dirname "$0")/.."
+cd "$(dirname "$0")/.." && mkdir -p build
 for c in $ids; do
   s=$(date +%s)
   bin/check $c --tier $tier > build/run_all.$c.$tier.log 2>&1; rc=$?
